@@ -49,8 +49,11 @@ theorem bindLabel_cfg (h : Holder) (id toSec toOff : Nat) : (h.bindLabel id toSe
 
 theorem asmBind_cfg (h : Holder) (c : Cur) (id : Nat) : (asmBind h c id).1.cfg = h.cfg := bindLabel_cfg h id c.sec c.off
 
-theorem asmJmp_cfg (h : Holder) (c : Cur) (id : Nat) : (asmJmp h c id).1.cfg = h.cfg := by
-  simp only [asmJmp]
+theorem jmpScratch_cfg (h : Holder) (c : Cur) : (jmpScratch h c).cfg = h.cfg := by
+  simp only [jmpScratch]; split <;> rfl
+
+theorem asmJmpCore_cfg (h : Holder) (c : Cur) (id : Nat) : (asmJmpCore h c id).1.cfg = h.cfg := by
+  simp only [asmJmpCore]
   cases h.labels[id]? with
   | none => rfl
   | some le =>
@@ -74,6 +77,9 @@ theorem asmJmp_cfg (h : Holder) (c : Cur) (id : Nat) : (asmJmp h c id).1.cfg = h
           · rfl
           · split <;> rfl
         · rfl
+
+theorem asmJmp_cfg (h : Holder) (c : Cur) (id : Nat) : (asmJmp h c id).1.cfg = h.cfg := by
+  simp only [asmJmp]; rw [asmJmpCore_cfg, jmpScratch_cfg]
 
 theorem asmElabel_cfg (h : Holder) (c : Cur) (id size : Nat) : (asmElabel h c id size).1.cfg = h.cfg := by
   simp only [asmElabel, asmElabelSz]
